@@ -80,7 +80,11 @@ Inductive case :=
   (* (closure, P, logdet) = (K + D)._preconditioner(); Ds = diagonal of D per member;
      observed: None = (None, None, None), Some [(closure(I_n), P.to_dense(), logdet)] per member *)
   | CasePre (st : settings float) (n : nat) (Ks : seq fmat) (Ds : seq fvec)
-            (tol : float) (obs : option (seq (fmat * fmat * float))).
+            (tol : float) (obs : option (seq (fmat * fmat * float)))
+  (* apply_permutation(M, left, right) on one (nr x nc) batch member; observed: the result rows *)
+  | CasePerm (nr nc : nat) (M : fmat) (left right : option (seq nat)) (tol : float) (obs : fmat)
+  (* inverse_permutation(perm) on one batch member *)
+  | CaseInv (perm : seq nat) (obs : seq nat).
 
 Definition check_pc_member (tol : float) (mo : (fmat * seq nat) * (fmat * seq nat)) : bool :=
   let: ((Lm, pm), (Lo, po)) := mo in
@@ -109,6 +113,8 @@ Definition check_case (c : case) : bool :=
               (zip (zip (zip (o_L o) Ds) (o_cache o)) ob)
       | _, _ => false
       end
+  | CasePerm nr nc M lp rp tol obs => mclose tol (apply_permutation ArFloat nr nc M lp rp) obs
+  | CaseInv perm obs => nats_eqb (inverse_permutation perm) obs
   end.
 
 Fixpoint bad_cases (cs : seq case) (i : nat) : seq nat :=
